@@ -914,3 +914,55 @@ Proof.
   intros R Hi H. unfold step in H. rewrite Hi in H. simpl in H. destruct (s_wg s) eqn:Ewg; [|discriminate].
   apply tsum_zero. rewrite <- (I_wg s (reachable_inv cf s R)). exact Ewg.
 Qed.
+
+(* ---------- report delivery: nothing is lost or duplicated because the write lock was busy ---------- *)
+Definition wpend (t : wpc) : list nat := match t with WWant r | WHold r => [r] | _ => [] end.
+Definition wsum (x : nat) (l : list wpc) : nat := fold_right (fun t a => (cnt x (wpend t) + a)%nat) 0%nat l.
+
+Lemma wsum_upd x l i t t' : nth_error l i = Some t ->
+  (wsum x (upd i t' l) + cnt x (wpend t) = wsum x l + cnt x (wpend t'))%nat.
+Proof.
+  revert i. induction l as [|a l IH]; destruct i; simpl; intros H; try discriminate.
+  - inversion H; subst. lia.
+  - specialize (IH _ H). lia.
+Qed.
+
+Definition wtotal (x : nat) (s : wstate) : nat := (cnt x (w_out s) + wsum x (w_thr s))%nat.
+
+Lemma wstep_total x s i s' : wstep s i = Some s' -> wtotal x s' = wtotal x s.
+Proof.
+  unfold wstep, wtotal. destruct (nth_error (w_thr s) i) as [t|] eqn:Hi; [|discriminate].
+  destruct t; try discriminate; try destruct (free (w_lock s)); try discriminate;
+    intro H; inversion H; subst s'; clear H; simpl;
+    pose proof (wsum_upd x _ _ _ (WHold r) Hi) as F1 || idtac;
+    first [ pose proof (wsum_upd x _ _ _ (WHold r) Hi) as F; simpl in F; rewrite ?cnt_app, ?cnt_nil in *; lia
+          | pose proof (wsum_upd x _ _ _ WDone Hi) as F; simpl in F; rewrite ?cnt_app, ?cnt_nil in *; lia
+          | pose proof (wsum_upd x _ _ _ WSet Hi) as F; simpl in F; rewrite ?cnt_app, ?cnt_nil in *; lia ].
+Qed.
+
+Lemma wrun_total x sched : forall s s', wrun sched s = Some s' -> wtotal x s' = wtotal x s.
+Proof.
+  induction sched as [|i r IH]; simpl; intros s s' H.
+  - inversion H; reflexivity.
+  - destruct (wstep s i) eqn:E; [|discriminate]. rewrite (IH _ _ H). eapply wstep_total; eauto.
+Qed.
+
+Lemma reports_conserved x thr sched s' :
+  wrun sched (mkw None thr []) = Some s' ->
+  (cnt x (w_out s') + wsum x (w_thr s') = wsum x thr)%nat.
+Proof. intro H. pose proof (wrun_total x sched _ _ H) as E. unfold wtotal in E. simpl in E. rewrite ?cnt_nil in E. unfold cnt in *. simpl in *. lia. Qed.
+
+Lemma reports_all_delivered x thr sched s' :
+  wrun sched (mkw None thr []) = Some s' -> Forall (fun t => t = WDone) (w_thr s') ->
+  cnt x (w_out s') = wsum x thr.
+Proof.
+  intros H D. rewrite <- (reports_conserved x thr sched s' H).
+  assert (Z0 : wsum x (w_thr s') = 0%nat).
+  { clear H. induction D; simpl; [reflexivity|]. subst. simpl. rewrite ?cnt_nil. unfold cnt in *. simpl in *. lia. }
+  lia.
+Qed.
+
+(* the writer is never stuck for good: whoever holds the lock can always go on *)
+Lemma report_holder_can_step s i t :
+  nth_error (w_thr s) i = Some t -> (exists r, t = WHold r) \/ t = WSet -> wstep s i <> None.
+Proof. intros Hi [[r ->]| ->]; unfold wstep; rewrite Hi; discriminate. Qed.
